@@ -62,6 +62,9 @@ def plan(tier, seed):
     parts.append(Part("vt.harness.c14_inst", "nested", {}, 120, 60,
                       "installed schemas: nested object of a complete instance (built from a versioned or a version-less plugin "
                       "handle) merges recursively with a parsed partial; identity; round trip", pure_pydantic=False))
+    parts.append(Part("vt.harness.c14_inst", "installed", {}, 300, 60,
+                      "every installed schema: partial class can be created, empty partial is an identity, rich valid instances "
+                      "survive complete -> partial -> complete (also through JSON)", pure_pydantic=False))
     return parts
 
 
